@@ -285,6 +285,11 @@ def gen_impl_method(w, case, iface, m, plan_list):
         w(f"case {v}: {{")
         w.ind += 1
         if plan["status"] != 0:
+            # an implementation may have filled output slots before it finds that it has to fail:
+            # objects it put there are its own (borrowed by nobody) and must not be touched
+            for j_, p in enumerate(m["params"]):
+                if p["dir"] == "out" and idl.param_kind(case, p) == "obj":
+                    w(f"*{p['name']}_ptr = counting_lend({700 + j_});")
             w(f"return {plan['status']};")
         else:
             for p in m["params"]:
@@ -342,7 +347,13 @@ def gen_impl_write(w, case, p, val):
             else:
                 w(f"memcpy(&{n}_ptr->{leaf['path']}, {cbytes(leaf['hex'])}, {idl.PRIMS[leaf['type']]});")
     elif kind == "obj":
-        w(f"*{n}_ptr = {obj_new(val['obj'])};")
+        # the usual idiom for filling an output slot (tests/c/object.h): replace what the slot
+        # holds, then give up the reference the implementation got from the constructor
+        w("{")
+        w(f"  Object zz_new = {obj_new(val['obj'])};")
+        w(f"  Object_ASSIGN(*{n}_ptr, zz_new);")
+        w("  if (!Object_isNull(zz_new)) { Object_release(zz_new); }")
+        w("}")
     elif kind == "objarr":
         for j, t in enumerate(val["objs"]):
             w(f"(*{n}_ptr)[{j}] = {obj_new(t)};")
